@@ -14,6 +14,14 @@
 //                                   every coordinate the cell construction hands to the predicates
 //                                   (generators, box corners, tetrahedron vertices, wall copies) lies in
 //                                   [1,2) and the rescaling is monotone per axis
+//   grid <anchor xyz, sides xyz, n generators xyz>
+//                                -> "grid <n> <#orient3d_adaptive> <#insphere_adaptive> <#exact> <#calls with a
+//                                   coordinate outside [1,2)> <#calls with a wrong sign>": the whole Voronoi grid
+//                                   is constructed by the tree's own NewVoronoiGrid / NewVoronoiCellConstructor
+//                                   (compiled into this harness against an auditing ExactGeometricTests class);
+//                                   oracle: every argument of every predicate call lies in [1,2), every returned
+//                                   sign is the exact sign of the determinant of the ACTUAL doubles, cell volumes
+//                                   sum to the box volume (no Lean model: implementation-level oracle)
 // and, when the property itself fails on the implementation, lines
 //   ORACLE line=<n> <what>
 // (exact routine != sign of the determinant evaluated independently with unbounded integers by
@@ -25,13 +33,80 @@
 #include <limits>
 #include <map>
 #include <boost/multiprecision/cpp_int.hpp>
+#include <cfloat>
+#include <climits>
+#include <omp.h>
 #define private public
+// the real class is compiled under the name ExactGeometricTests_real; the Voronoi construction
+// (NewVoronoiCellConstructor.cpp / NewVoronoiGrid.cpp of the tree under test, included below into
+// this translation unit) sees an auditing class ExactGeometricTests that records every predicate
+// call it makes and forwards it to the real routine
+#define ExactGeometricTests ExactGeometricTests_real
 #include "ExactGeometricTests.hpp"
-#include "NewVoronoiGrid.hpp"
-#undef private
+#undef ExactGeometricTests
 
 typedef CoordinateVector<> CV;
 typedef boost::multiprecision::cpp_int Z;
+
+struct PredicateAudit {
+  bool on = false;
+  uint64_t norient = 0, ninsphere = 0, nexact = 0, noutside = 0, nwrong = 0;
+  std::string first_outside, first_wrong;
+  void reset() { *this = PredicateAudit(); }
+};
+static PredicateAudit audit;
+static void audit_call(const char *name, const CV *p, size_t n, int returned);
+
+class ExactGeometricTests {
+public:
+  inline static uint64_t get_mantissa(double value) {
+    return ExactGeometricTests_real::get_mantissa(value);
+  }
+  inline static char orient3d_exact(const CV &a, const CV &b, const CV &c, const CV &d) {
+    const char r = ExactGeometricTests_real::orient3d_exact(a, b, c, d);
+    if (audit.on) {
+      const CV p[4] = {a, b, c, d};
+      ++audit.nexact;
+      audit_call("orient3d_exact", p, 4, r);
+    }
+    return r;
+  }
+  inline static char orient3d_adaptive(const CV &a, const CV &b, const CV &c, const CV &d) {
+    const char r = ExactGeometricTests_real::orient3d_adaptive(a, b, c, d);
+    if (audit.on) {
+      const CV p[4] = {a, b, c, d};
+      ++audit.norient;
+      audit_call("orient3d_adaptive", p, 4, r);
+    }
+    return r;
+  }
+  inline static char insphere_exact(const CV &a, const CV &b, const CV &c, const CV &d,
+                                    const CV &e) {
+    const char r = ExactGeometricTests_real::insphere_exact(a, b, c, d, e);
+    if (audit.on) {
+      const CV p[5] = {a, b, c, d, e};
+      ++audit.nexact;
+      audit_call("insphere_exact", p, 5, r);
+    }
+    return r;
+  }
+  inline static char insphere_adaptive(const CV &a, const CV &b, const CV &c, const CV &d,
+                                       const CV &e) {
+    const char r = ExactGeometricTests_real::insphere_adaptive(a, b, c, d, e);
+    if (audit.on) {
+      const CV p[5] = {a, b, c, d, e};
+      ++audit.ninsphere;
+      audit_call("insphere_adaptive", p, 5, r);
+    }
+    return r;
+  }
+};
+
+#include "NewVoronoiGrid.hpp"
+#undef private
+// the construction code of the tree under test, calling the auditing class
+#include "NewVoronoiCellConstructor.cpp"
+#include "NewVoronoiGrid.cpp"
 
 // ---- independent reference: unbounded integers, mantissa = low 52 bits of the pattern,
 // determinants by the Leibniz formula (not the association of the code)
@@ -84,6 +159,118 @@ static int ref_insphere(const CV *p) {
   return sign_of(det);
 }
 
+// ---- reference on the ACTUAL values of arbitrary finite doubles (not only their mantissas): every
+// coordinate is m * 2^e exactly; all are brought to the smallest exponent that occurs
+static void true_ints(const CV *p, size_t n, Z out[5][3]) {
+  int emin = INT_MAX;
+  int ex[5][3];
+  int64_t mt[5][3];
+  for (size_t i = 0; i < n; ++i)
+    for (int c = 0; c < 3; ++c) {
+      int e;
+      const double f = std::frexp(p[i][c], &e);
+      mt[i][c] = (int64_t)std::ldexp(f, 53);
+      ex[i][c] = e - 53;
+      if (mt[i][c] != 0 && ex[i][c] < emin)
+        emin = ex[i][c];
+    }
+  for (size_t i = 0; i < n; ++i)
+    for (int c = 0; c < 3; ++c)
+      out[i][c] = (mt[i][c] == 0) ? Z(0) : (Z(mt[i][c]) << (ex[i][c] - emin));
+}
+static int true_sign(const CV *p, size_t n) {
+  Z v[5][3], r[4][3];
+  true_ints(p, n, v);
+  for (size_t i = 0; i + 1 < n; ++i)
+    for (int c = 0; c < 3; ++c)
+      r[i][c] = v[i][c] - v[n - 1][c];
+  if (n == 4) {
+    Z m[3][3];
+    for (int i = 0; i < 3; ++i)
+      for (int j = 0; j < 3; ++j)
+        m[i][j] = r[i][j];
+    return sign_of(leibniz3(m));
+  }
+  Z det = 0;
+  for (int i = 0; i < 4; ++i) {
+    Z m[3][3];
+    int k = 0;
+    for (int l = 0; l < 4; ++l) {
+      if (l == i)
+        continue;
+      for (int j = 0; j < 3; ++j)
+        m[k][j] = r[l][j];
+      ++k;
+    }
+    const Z nn = r[i][0] * r[i][0] + r[i][1] * r[i][1] + r[i][2] * r[i][2];
+    const Z t = nn * leibniz3(m);
+    if ((i + 3) % 2 == 0)
+      det += t;
+    else
+      det -= t;
+  }
+  return sign_of(det);
+}
+
+static std::string show_call(const char *name, const CV *p, size_t n, int returned) {
+  std::ostringstream o;
+  o << name << "(";
+  for (size_t i = 0; i < n; ++i) {
+    char buf[120];
+    std::snprintf(buf, sizeof buf, "%s[%.17g,%.17g,%.17g]", i ? "," : "", p[i].x(), p[i].y(),
+                  p[i].z());
+    o << buf;
+  }
+  o << ")=" << returned;
+  return o.str();
+}
+
+// called for every predicate call made by the Voronoi construction
+static void audit_call(const char *name, const CV *p, size_t n, int returned) {
+  bool outside = false;
+  for (size_t i = 0; i < n; ++i)
+    for (int c = 0; c < 3; ++c)
+      if (!(p[i][c] >= 1. && p[i][c] < 2.))
+        outside = true;
+  if (outside) {
+    if (audit.noutside++ == 0)
+      audit.first_outside = show_call(name, p, n, returned);
+  }
+  const int t = true_sign(p, n);
+  if (t != returned) {
+    if (audit.nwrong++ == 0)
+      audit.first_wrong = show_call(name, p, n, returned) + "-but-exact-sign-is-" +
+                          std::to_string(t);
+  }
+}
+
+// grid op: construct the whole Voronoi grid with the real code, auditing every predicate call
+static void grid_op(const CV &anchor, const CV &sides, const std::vector< CV > &pos,
+                    std::ostringstream &bad) {
+  const Box<> box(anchor, sides);
+  audit.reset();
+  audit.on = true;
+  NewVoronoiGrid grid(pos, box);
+  grid.compute_grid(1);
+  audit.on = false;
+  double vol = 0.;
+  for (size_t i = 0; i < pos.size(); ++i)
+    vol += grid.get_volume(i);
+  const double bv = sides.x() * sides.y() * sides.z();
+  std::cout << "grid " << pos.size() << " " << audit.norient << " " << audit.ninsphere << " "
+            << audit.nexact << " " << audit.noutside << " " << audit.nwrong << "\n";
+  if (audit.noutside)
+    bad << " caller-passes-coordinate-outside-[1,2):" << audit.noutside << "-of-"
+        << (audit.norient + audit.ninsphere + audit.nexact) << "-calls,first:"
+        << audit.first_outside;
+  if (audit.nwrong)
+    bad << " predicate-sign-differs-in-grid-construction:" << audit.nwrong << "-of-"
+        << (audit.norient + audit.ninsphere + audit.nexact) << "-calls,first:"
+        << audit.first_wrong;
+  if (!(std::fabs(vol / bv - 1.) < 1.e-9))
+    bad << " grid-cell-volumes-do-not-sum-to-box-volume:rel-diff=" << (vol / bv - 1.);
+}
+
 static bool read_points(const std::vector< std::string > &w, size_t n, CV *p) {
   if (w.size() != 1 + 3 * n)
     return false;
@@ -93,16 +280,16 @@ static bool read_points(const std::vector< std::string > &w, size_t n, CV *p) {
 }
 
 static int o_exact(const CV *p) {
-  return ExactGeometricTests::orient3d_exact(p[0], p[1], p[2], p[3]);
+  return ExactGeometricTests_real::orient3d_exact(p[0], p[1], p[2], p[3]);
 }
 static int o_adapt(const CV *p) {
-  return ExactGeometricTests::orient3d_adaptive(p[0], p[1], p[2], p[3]);
+  return ExactGeometricTests_real::orient3d_adaptive(p[0], p[1], p[2], p[3]);
 }
 static int i_exact(const CV *p) {
-  return ExactGeometricTests::insphere_exact(p[0], p[1], p[2], p[3], p[4]);
+  return ExactGeometricTests_real::insphere_exact(p[0], p[1], p[2], p[3], p[4]);
 }
 static int i_adapt(const CV *p) {
-  return ExactGeometricTests::insphere_adaptive(p[0], p[1], p[2], p[3], p[4]);
+  return ExactGeometricTests_real::insphere_adaptive(p[0], p[1], p[2], p[3], p[4]);
 }
 
 // all transpositions must negate, all 3-cycles must keep the answer of `f`
@@ -277,9 +464,9 @@ int main() {
       std::cout << "bad-op\n";
     } else if (w[0] == "widths") {
       std::cout << "widths "
-                << std::numeric_limits< ExactGeometricTests::int_orient3d >::digits
+                << std::numeric_limits< ExactGeometricTests_real::int_orient3d >::digits
                 << " "
-                << std::numeric_limits< ExactGeometricTests::int_insphere >::digits
+                << std::numeric_limits< ExactGeometricTests_real::int_insphere >::digits
                 << "\n";
     } else if (w[0] == "box" && w.size() >= 10 && (w.size() - 1) % 3 == 0) {
       const size_t np = (w.size() - 1) / 3;
@@ -287,9 +474,15 @@ int main() {
       for (size_t i = 0; i < np; ++i)
         q[i] = CV(dbl(w[1 + 3 * i]), dbl(w[2 + 3 * i]), dbl(w[3 + 3 * i]));
       range_oracle(q[0], q[1], std::vector< CV >(q.begin() + 2, q.end()), bad);
+    } else if (w[0] == "grid" && w.size() >= 10 && (w.size() - 1) % 3 == 0) {
+      const size_t np = (w.size() - 1) / 3;
+      std::vector< CV > q(np);
+      for (size_t i = 0; i < np; ++i)
+        q[i] = CV(dbl(w[1 + 3 * i]), dbl(w[2 + 3 * i]), dbl(w[3 + 3 * i]));
+      grid_op(q[0], q[1], std::vector< CV >(q.begin() + 2, q.end()), bad);
     } else if (w[0] == "m" && w.size() == 2) {
       const double d = dbl(w[1]);
-      const uint64_t mt = ExactGeometricTests::get_mantissa(d);
+      const uint64_t mt = ExactGeometricTests_real::get_mantissa(d);
       std::cout << "m " << mt << "\n";
       // for a double in [1,2): value = 1 + mantissa / 2^52 (exact in double arithmetic)
       if (d >= 1. && d < 2. && !(1. + std::ldexp((double)mt, -52) == d))
